@@ -23,11 +23,12 @@ pub fn gen(rng: &mut Rng, tier: &str) -> Vec<Line> {
     let k = rng.range(1, 6) as usize;
     let mut l = L::new().p(cmd).p(has_rune_index).p(k);
     for _ in 0..k {
-      // inscribed and runic at once is left out: the mock node aborts on the duplicate
-      // entry the wallet then sends to lockunspent (Bitcoin Core accepts it)
-      let mut f = *rng.pick(&[0u64, 0, 1, 2, 1, 2]);
-      if !has_rune_index && f == 2 {
-        f = 0;
+      // inscribed and runic at once only as already locked (7): for an unlocked one the wallet
+      // names the output twice in one lockunspent call, which Bitcoin Core accepts but the
+      // mock node aborts on
+      let mut f = *rng.pick(&[0u64, 0, 1, 2, 1, 2, 7]);
+      if !has_rune_index {
+        f &= !2;
       }
       if rng.chance(1, 5) {
         f |= 4;
